@@ -1,7 +1,7 @@
 // Mode c02: forged-certificate stream against the REAL controller and a REAL QBFTStore (ibft/storage on in-memory Badger).
 // Oracle (never uses the model): whenever the controller reports a decision — ProcessMsg returns a decided message, an
-// instance's Decided flag is raised, or an instance is handed to the store — the certificate re-verifies with the real
-// VerifyByOperators, carries >= quorum DISTINCT non-zero committee signers over one (height, round, root), is a commit, and
+// instance's Decided flag is raised, or an instance is handed to the store — the certificate re-verifies with the
+// REFERENCE VerifyByOperators (ssv-spec, cache-free; the node's own verifier is under test), carries >= quorum DISTINCT non-zero committee signers over one (height, round, root), is a commit, and
 // H(FullData) = Root; for locally reached first decisions additionally: the value passes the operator's value check and the
 // accepted proposal it refers to was signed by the round-robin leader of its round.
 package main
@@ -14,7 +14,6 @@ import (
 	spectypes "github.com/bloxapp/ssv-spec/types"
 	"github.com/herumi/bls-eth-go-binary/bls"
 
-	ssvtypes "github.com/bloxapp/ssv/protocol/v2/types"
 	"github.com/bloxapp/ssv/zz_verif/lib/hx"
 )
 
@@ -48,7 +47,8 @@ func certDefect(env *Env, m *specqbft.SignedMessage) string {
 	if uint64(len(seen)) < env.q {
 		return "sub-quorum"
 	}
-	if ssvtypes.VerifyByOperators(m.Signature, m, env.domain, spectypes.QBFTSignatureType, env.committee) != nil {
+	// the REFERENCE verifier (ssv-spec, cache-free) — the node's own VerifyByOperators is under test here
+	if m.Signature.VerifyByOperators(m, env.domain, spectypes.QBFTSignatureType, env.committee) != nil {
 		return "bad-aggregate-signature"
 	}
 	if sha256.Sum256(m.FullData) != m.Message.Root {
@@ -338,6 +338,16 @@ func runC02Case(t *Traffic, op spectypes.OperatorID, r *hx.Rng) caseOut {
 	}
 	for k := 4 + r.Intn(10); k > 0; k-- {
 		base := certs[r.Intn(len(certs))]
+		if r.Chance(25) { // the genuine certificate first (the node verifies it), then its signature on something else
+			forged, kind := reuseVerified(r, base)
+			tags = append(tags, "cert/reuse-verified:"+kind)
+			apply(ScriptOp{Kind: "deliver", Msg: roundTrip(base)})
+			if r.Chance(30) && len(script) > cut {
+				apply(script[cut])
+			}
+			apply(ScriptOp{Kind: "deliver", Msg: roundTrip(forged)})
+			continue
+		}
 		if enc, kind := forgeCert(env, r, base, mu); enc != nil {
 			tags = append(tags, "cert/"+kind)
 			apply(ScriptOp{Kind: "deliver", Msg: enc})
@@ -355,4 +365,151 @@ func runC02Case(t *Traffic, op spectypes.OperatorID, r *hx.Rng) caseOut {
 		}
 	}
 	return finishCase(c, tags)
+}
+
+// ---------------------------------------------------------------- re-use of VERIFIED signatures (seeded change C02-m1)
+
+var reuseKinds = []string{"height", "round", "value", "height-value", "round-value", "root-only", "fulldata-only", "type"}
+
+// reuseVerified: a forged certificate that keeps signature AND signer list of the genuine certificate `base` (which the
+// caller delivers first, so that the node has verified it in this process) but is about something else.
+func reuseVerified(r *hx.Rng, base *specqbft.SignedMessage) (*specqbft.SignedMessage, string) {
+	m := cloneMsg(base)
+	kind := reuseKinds[r.Intn(len(reuseKinds))]
+	newValue := func() {
+		v := valueBytes(70 + r.Intn(20))
+		m.FullData = v
+		m.Message.Root = sha256.Sum256(v)
+	}
+	switch kind {
+	case "height":
+		m.Message.Height += specqbft.Height(1 + r.Intn(2))
+	case "round":
+		m.Message.Round = specqbft.Round(1 + (uint64(m.Message.Round)+uint64(r.Intn(3)))%4)
+	case "value":
+		newValue()
+	case "height-value":
+		m.Message.Height += specqbft.Height(1 + r.Intn(2))
+		newValue()
+	case "round-value":
+		m.Message.Round++
+		newValue()
+	case "root-only":
+		m.Message.Root = sha256.Sum256(valueBytes(70 + r.Intn(20)))
+	case "fulldata-only":
+		m.FullData = valueBytes(70 + r.Intn(20))
+	case "type":
+		m.Message.MsgType = specqbft.PrepareMsgType
+	}
+	return m, kind
+}
+
+// scenarioReusedSignature (directed): operator 1 of 4 decides height h on the genuine certificate of {1,2,3} for A, then
+// receives certificates with that very signature and signer list for (h, B), (h+1, B) and (h+1, A).
+func scenarioReusedSignature(h specqbft.Height) caseOut {
+	env := getEnv(4)
+	f := &Forge{env: env, h: h}
+	A, B := valueBytes(1), valueBytes(2)
+	c := newCase(env, 1, h, [][]byte{badValue}, true, false, false)
+	c.c02 = true
+	c.emit(c.resetLine(), "ok")
+	c.applyCtrlStart(h, A)
+	genuine := f.decided([]spectypes.OperatorID{1, 2, 3}, h, 1, A)
+	c.applyCtrlDeliver(decodeMsg(enc(genuine)))
+	for _, v := range []struct {
+		dh specqbft.Height
+		v  []byte
+	}{{0, B}, {1, B}, {1, A}, {2, B}} {
+		m := cloneMsg(genuine)
+		m.Message.Height += v.dh
+		m.FullData = v.v
+		m.Message.Root = sha256.Sum256(v.v)
+		c.applyCtrlDeliver(decodeMsg(enc(m)))
+	}
+	return finishCase(c, []string{"case/directed", "directed/reused-verified-signature"})
+}
+
+// ---------------------------------------------------------------- histories towards a LOCAL decision (seeded changes C02-m2 / m3)
+
+// runC02History: one operator, real controller with the real RoundRobinProposer and this operator's own value check.
+//
+//	wrong-leader : the operator is in round `cur` (after cur-1 timeouts); a proposal for a LATER round k, fully justified by a
+//	               quorum of genuine round-changes for k, but signed by somebody who is not the leader of round k (the leader
+//	               of the operator's current round, or any other non-leader); then prepare and commit quorums for it.
+//	bad-value    : the leader of round k re-proposes a value that THIS operator's value check rejects, justified by a quorum
+//	               of round-changes prepared on it in round k-1 (the other operators' checks accept it) and the matching
+//	               prepare quorum; then prepare and commit quorums for it.
+//
+// The oracle is c02Check: a local decision implies own value check passed and the accepted proposal is the round leader's.
+func runC02History(r *hx.Rng, kind string, n int, h specqbft.Height, op spectypes.OperatorID, cur, k specqbft.Round, whoIdx int) caseOut {
+	env := getEnv(n)
+	f := &Forge{env: env, r: r, h: h}
+	c := newCase(env, op, h, [][]byte{badValue}, true, false, false)
+	c.c02 = true
+	c.emit(c.resetLine(), "ok")
+	tags := []string{"case/c02-history", "history/" + kind, fmt.Sprintf("n/%d", n)}
+	c.applyCtrlStart(h, valueBytes(3))
+	for rd := specqbft.Round(1); rd < cur; rd++ {
+		c.applyCtrlTimeout(h, rd)
+	}
+	var others []spectypes.OperatorID
+	for i := 1; i <= n; i++ {
+		if spectypes.OperatorID(i) != op {
+			others = append(others, spectypes.OperatorID(i))
+		}
+	}
+	qs := others[:env.q]
+	value := valueBytes(5)
+	by := f.leader(k)
+	var rcs, preps []*specqbft.SignedMessage
+	switch kind {
+	case "wrong-leader":
+		for _, id := range qs {
+			rcs = append(rcs, f.roundChange(id, k, 0, nil, nil))
+		}
+		by = f.leader(cur)
+		if whoIdx > 0 || by == f.leader(k) {
+			by = others[whoIdx%len(others)]
+			if by == f.leader(k) {
+				by = others[(whoIdx+1)%len(others)]
+			}
+		}
+		tags = append(tags, fmt.Sprintf("history/wrong-leader-cur%d-k%d", cur, k))
+	case "bad-value":
+		value = badValue
+		root := sha256.Sum256(value)
+		for _, id := range qs {
+			preps = append(preps, f.prepare(id, k-1, root))
+		}
+		for _, id := range qs {
+			rcs = append(rcs, f.roundChange(id, k, k-1, value, preps))
+		}
+		tags = append(tags, fmt.Sprintf("history/bad-value-cur%d-k%d", cur, k))
+	}
+	root := sha256.Sum256(value)
+	c.applyCtrlDeliver(decodeMsg(enc(f.proposal(by, k, value, rcs, preps))))
+	for _, id := range qs {
+		c.applyCtrlDeliver(decodeMsg(enc(f.prepare(id, k, root))))
+	}
+	for _, id := range qs {
+		c.applyCtrlDeliver(decodeMsg(enc(f.commit(id, k, root))))
+	}
+	return finishCase(c, tags)
+}
+
+func randomC02History(r *hx.Rng) caseOut {
+	n := []int{4, 4, 7}[r.Intn(3)]
+	cur := specqbft.Round(1 + r.Intn(3))
+	k := cur + specqbft.Round(1+r.Intn(2))
+	kind := "wrong-leader"
+	if r.Bool() {
+		kind = "bad-value"
+		if r.Bool() {
+			k = cur // re-proposal for the round the operator is in (after its own timeouts); cur ≥ 2 needed
+			if k < 2 {
+				k = 2
+			}
+		}
+	}
+	return runC02History(r, kind, n, specqbft.Height(r.Intn(9)), spectypes.OperatorID(1+r.Intn(n)), cur, k, r.Intn(3))
 }
